@@ -132,12 +132,12 @@ _canned = st.sampled_from([
 ])
 scripts = st.one_of(_free_scripts, _canned)
 # NB: st.one_of() drops duplicate branches, so weights are expressed through sampled_from() lists.
-_KINDS = ["call"] * 9 + ["enter"] * 2 + ["detach", "exit"]
+_KINDS = ["call"] * 9 + ["enter"] * 2 + ["detach", "detach", "exit"]
 
 
 def _mk_op(kind: str, via: Any, script: list[str], stash: int | None, v: int) -> dict[str, Any]:
     if kind == "call":
-        return {"op": "call", "via": via, "script": script}
+        return {"op": "call", "via": via, "script": script, **({"stash": v} if via == "replay" else {})}
     if kind == "enter":
         return {"op": "enter", "stash": stash}
     return {"op": kind, "v": v}
@@ -146,7 +146,7 @@ def _mk_op(kind: str, via: Any, script: list[str], stash: int | None, v: int) ->
 ops = st.builds(
     _mk_op,
     st.sampled_from(_KINDS),
-    st.sampled_from(["plain", 0, 0, 0, 0, 1, 1, 2]),
+    st.sampled_from(["plain", 0, 0, 0, 0, 1, 1, 2, "replay", "replay"]),
     scripts,
     st.sampled_from([None, 0, 1, 2]),
     st.integers(0, 2),
@@ -245,22 +245,33 @@ class _Run:
         script: list[str] = list(op["script"])
         via = op["via"]
         v: _View | None = None
-        if via != "plain":
+        replay: tuple[str, int] | None = None
+        if via == "replay":
+            # a detached token presented by a client that does NOT send the opt-in header (a plain proxy, a script
+            # with the token pasted in): the session is resumed, but nothing may be opened for this request
+            live = [(t, s_) for t, s_ in self.stash if self.model.sessions[s_].live(self.model.now_ms)]
+            if not live:
+                return
+            replay = live[op.get("stash", 0) % len(live)]
+        elif via != "plain":
             if not self.views:
                 return
             v = self.views[via % len(self.views)]
         accept = v is not None
-        cur = v.session if v is not None else None
+        cur = v.session if v is not None else (replay[1] if replay is not None else None)
         exp = model_request(script, accept, self.draining, cur, self.world.next_serial)
         has_o = any(a in ("o", "O") for a in script)
         if has_o and "c" in script:
             self.nt = True
         shape = "".join(a.lower() for a in script if a in "oOcx")
         self.out.label(
-            f"script={shape or '-'}", f"via={'view' if accept else 'plain'}/{'bound' if cur is not None else 'unbound'}/"
+            f"script={shape or '-'}", f"via={'view' if accept else 'replayed_token' if replay else 'plain'}/{'bound' if cur is not None else 'unbound'}/"
             f"{'draining' if self.draining else 'serving'}",
         )
-        r = self.world.request(0, 0, ",".join(script), -1, via=(v.view if v is not None else None))
+        if replay is not None:
+            r = self.world.request(0, 0, ",".join(script), -1, accept=False, token_header=replay[0])
+        else:
+            r = self.world.request(0, 0, ",".join(script), -1, via=(v.view if v is not None else None))
         # ---- per-action results (the invocation log records them even when the request ends in an error)
         ctxs = f"{'accept' if accept else 'noaccept'}/{'bound' if cur is not None else 'unbound'}/{'draining' if self.draining else 'serving'}"
         if len(r.log) != 1:
@@ -296,6 +307,8 @@ class _Run:
             self.model.open(k, 0, 0, self.world.default_ttl_ms)
         for k in exp["ended"]:
             self.model.end(k, "closed")
+        if replay is not None:
+            self.stash = [(t, s_) for t, s_ in self.stash if s_ not in exp["ended"]]
         if v is not None:
             v.session = exp["final"]
             if exp["close_seen"]:
@@ -411,7 +424,7 @@ def run_history(case: dict[str, Any]) -> Outcome:
 
 
 def _grid() -> list[dict[str, Any]]:
-    """All scripts of length 1..3 over {o,O,c,r,x} in every (connection, bound, draining) context."""
+    """All scripts of length 1..3 over {o,O,c,r,x} in every (connection | detached token replayed without opt-in, bound, draining) context."""
     import itertools
 
     cases: list[dict[str, Any]] = []
@@ -420,14 +433,18 @@ def _grid() -> list[dict[str, Any]]:
         for sc in itertools.product(acts, repeat=n):
             if "x" in sc[:-1]:
                 continue  # nothing runs after a raise
-            for ctx in ("plain", "fresh", "bound"):
+            for ctx in ("plain", "fresh", "bound", "replay"):
                 for drain in (False, True):
                     ops: list[dict[str, Any]] = [{"op": "enter", "stash": None}]
-                    if ctx == "bound":
+                    if ctx in ("bound", "replay"):
                         ops.append({"op": "call", "via": 0, "script": ["o"]})
+                    if ctx == "replay":  # hand the live token off, then present it without the opt-in header
+                        ops.append({"op": "detach", "v": 0})
                     if drain:
                         ops.append({"op": "drain"})
-                    ops.append({"op": "call", "via": "plain" if ctx == "plain" else 0, "script": list(sc)})
+                    ops.append({"op": "call", "via": {"plain": "plain", "replay": "replay"}.get(ctx, 0), "script": list(sc), "stash": 0})
+                    if ctx == "replay":
+                        ops.append({"op": "enter", "stash": 0})  # whoever re-enters with the token afterwards
                     ops.append({"op": "call", "via": 0, "script": ["r"]})  # follow-up through the view
                     cases.append({"ops": ops})
     return cases
